@@ -343,7 +343,7 @@ func g13Trip(t *rapid.T) *H13Trip {
 	long := rapid.IntRange(0, 11).Draw(t, "longList") == 0
 	if long {
 		// size class: long runs of updates, most of them identified by sequence only (no strings between the numbers)
-		n = rapid.SampledFrom([]int{9, 17, 33, 70, 130, 260, 520}).Draw(t, "longN")
+		n = rapid.SampledFrom([]int{9, 17, 33, 70, 130, 260, 520, 1030, 2063}).Draw(t, "longN")
 	}
 	for i := 0; i < n; i++ {
 		u := g13STU(t)
@@ -411,6 +411,12 @@ func pickSTU(t *rapid.T, m *H13Trip) *H13STU {
 		return nil
 	}
 	i := rapid.IntRange(0, len(m.STUs)-1).Draw(t, "stuIndex")
+	switch rapid.IntRange(0, 5).Draw(t, "stuWhere") {
+	case 0, 1: // the last update: whatever is done in blocks or chunks has its remainder here
+		i = len(m.STUs) - 1
+	case 2:
+		i = 0
+	}
 	return &m.STUs[i]
 }
 
